@@ -111,12 +111,14 @@ func (t *TorStore) Open(name string, size int64) (storage.File, bool, error) {
 		s.Log = append(s.Log, StoreOp{Step: s.step(), Tor: t.id, Kind: "open", File: name, Err: err.Error()})
 		return nil, false, err
 	}
+	grown := false
 	f, exists := t.Files[name]
 	if !exists {
 		f = &MemFile{Name: name, Data: make([]byte, size)}
 		t.Files[name] = f
 	} else if int64(len(f.Data)) != size {
-		// same as filestorage: truncate/extend to the expected size
+		// same as filestorage: truncate/extend to the expected size (bound to it by TestC04StoreConformance)
+		grown = int64(len(f.Data)) < size
 		nd := make([]byte, size)
 		copy(nd, f.Data)
 		f.Data = nd
@@ -124,8 +126,17 @@ func (t *TorStore) Open(name string, size int64) (storage.File, bool, error) {
 	f.Open++
 	f.Opens++
 	s.Log = append(s.Log, StoreOp{Step: s.step(), Tor: t.id, Kind: "open", File: name, Len: int(size)})
+	if grown {
+		return grownHandle{&handle{t: t, f: f}}, exists, nil
+	}
 	return &handle{t: t, f: f}, exists, nil
 }
+
+// grownHandle mirrors filestorage: a file that existed but was too short says so through the optional
+// interface the allocator asks for (detected by name, so that the lab also builds on trees without it).
+type grownHandle struct{ *handle }
+
+func (grownHandle) Grown() bool { return true }
 
 type handle struct {
 	t      *TorStore
